@@ -117,6 +117,10 @@ var slogLevelOf = map[int]logslog.Level{5: logslog.LevelDebug, 4: logslog.LevelI
 // call issues one record through ep on logger e (pkg entry points use the default logger)
 func (ep entryPoint) call(e *slog.Entry, r int) {
 	ctx := context.Background()
+	if c01Bare {
+		ep.callBare(e, r)
+		return
+	}
 	if ep.Recv == "pkg" {
 		switch ep.Kind {
 		case "verb":
@@ -142,6 +146,38 @@ func (ep entryPoint) call(e *slog.Entry, r int) {
 		m.Call([]reflect.Value{reflect.ValueOf(ctx), reflect.ValueOf(slog.Level(r)), reflect.ValueOf("m"), reflect.ValueOf("k"), reflect.ValueOf(1)})
 	case "sloglevel":
 		m.Call([]reflect.Value{reflect.ValueOf(ctx), reflect.ValueOf(slogLevelOf[r]), reflect.ValueOf("m"), reflect.ValueOf("k"), reflect.ValueOf(1)})
+	}
+}
+
+// c01Bare: the same entry points called with the least a caller can pass - no key/value arguments, an empty
+// message, Println with no argument at all (the "just an empty line" call)
+var c01Bare bool
+
+func (ep entryPoint) callBare(e *slog.Entry, r int) {
+	ctx := context.Background()
+	if ep.Recv == "pkg" {
+		switch ep.Kind {
+		case "verb":
+			pkgVerbs[ep.Name]("")
+		case "ctxverb":
+			pkgCtxVerbs[ep.Name](ctx, "")
+		case "println":
+			slog.Println()
+		}
+		return
+	}
+	m := reflect.ValueOf(e).MethodByName(ep.Name)
+	switch ep.Kind {
+	case "verb", "printf":
+		m.Call([]reflect.Value{reflect.ValueOf("")})
+	case "println":
+		m.Call(nil)
+	case "ctxverb":
+		m.Call([]reflect.Value{reflect.ValueOf(ctx), reflect.ValueOf("")})
+	case "level":
+		m.Call([]reflect.Value{reflect.ValueOf(ctx), reflect.ValueOf(slog.Level(r)), reflect.ValueOf("")})
+	case "sloglevel":
+		m.Call([]reflect.Value{reflect.ValueOf(ctx), reflect.ValueOf(slogLevelOf[r]), reflect.ValueOf("")})
 	}
 }
 
@@ -247,6 +283,18 @@ func c01Cell1(r *Run, ep entryPoint, e *slog.Entry, dbg bool, L, sev int, kind s
 		r.Fail(fmt.Sprintf("C01/gate:%s.%s", ep.Recv, ep.Name),
 			fmt.Sprintf("%s.%s severity %d on a logger at level %d (debug=%v): %d write(s), the rule says %d", ep.Recv, ep.Name, sev, L, dbg, n, want), cell)
 	}
+	// the same cell, called with the least a caller can pass (direct oracle)
+	c01Bare = true
+	events = nil
+	ep.call(e, sev)
+	c01Bare = false
+	if nb := countWrites(); nb != want {
+		cell.Kind, cell.Wrote = kind+"/bare-call", nb
+		r.Fail(fmt.Sprintf("C01/gate-bare-call:%s.%s", ep.Recv, ep.Name),
+			fmt.Sprintf("%s.%s called with an empty message and no further argument (Println: no argument at all), severity %d on a logger at level %d (debug=%v): %d write(s), the rule says %d", ep.Recv, ep.Name, sev, L, dbg, nb, want), cell)
+		cell.Kind, cell.Wrote = kind, n
+	}
+	r.Count(true, "bare-call "+ep.Recv+"."+ep.Name)
 	param := sev
 	if sev == sevNever {
 		param = 0
